@@ -2,7 +2,10 @@
 
 package connect
 
-import "bytes"
+import (
+	"bytes"
+	"context"
+)
 
 func verifPoolGet(*bufferPool, *bytes.Buffer) {}
 
@@ -11,3 +14,5 @@ func verifPoolPut(*bufferPool, *bytes.Buffer) {}
 func verifCodecGet(*compressionPool, any) {}
 
 func verifCodecPut(*compressionPool, any) {}
+
+func verifUnaryConn(_ context.Context, conn StreamingClientConn) StreamingClientConn { return conn }
